@@ -497,6 +497,28 @@ class NDCubeBase(NDCubeABC, astropy.nddata.NDData, NDCubeSlicingMixin):
 
         return world_coords
 
+    def _calculate_world_indices_from_axes(self, wcs, axes, extra_coords_mapping=None):
+        """
+        World indices of ``wcs`` selected by ``axes``, where integers are array axes of this cube.
+
+        The pixel dimensions of extra coords are linked to the pixel dimensions of the cube by the
+        mapping, so array axes must be translated through it.
+        """
+        if extra_coords_mapping is None:
+            return utils.wcs.calculate_world_indices_from_axes(wcs, axes)
+        world_indices = []
+        for axis in axes:
+            if isinstance(axis, numbers.Integral):
+                cube_pixel_axis = utils.wcs.convert_between_array_and_pixel_axes(
+                    np.array([axis]), len(self.shape))[0]
+                for ec_pixel_axis, mapped_pixel_axis in enumerate(extra_coords_mapping):
+                    if mapped_pixel_axis == cube_pixel_axis:
+                        world_indices += list(utils.wcs.pixel_axis_to_world_axes(
+                            ec_pixel_axis, wcs.axis_correlation_matrix))
+            else:
+                world_indices += list(utils.wcs.calculate_world_indices_from_axes(wcs, (axis,)))
+        return np.unique(np.array(world_indices, dtype=int))
+
     @utils.cube.sanitize_wcs
     def axis_world_coords(self, *axes, pixel_corners=False, wcs=None):
 
@@ -506,7 +528,9 @@ class NDCubeBase(NDCubeABC, astropy.nddata.NDData, NDCubeSlicingMixin):
 
         axes_coords = self._generate_world_coords(pixel_corners, wcs)
 
+        extra_coords_mapping = None
         if isinstance(wcs, ExtraCoords):
+            extra_coords_mapping = wcs.mapping
             wcs = wcs.wcs
             if not wcs:
                 return tuple()
@@ -528,7 +552,7 @@ class NDCubeBase(NDCubeABC, astropy.nddata.NDData, NDCubeSlicingMixin):
             for world_index in world_axes:
                 world_index_to_object_index[world_index] = object_index
 
-        world_indices = utils.wcs.calculate_world_indices_from_axes(wcs, axes)
+        world_indices = self._calculate_world_indices_from_axes(wcs, axes, extra_coords_mapping)
         object_indices = utils.misc.unique_sorted(
             [world_index_to_object_index[world_index] for world_index in world_indices]
         )
@@ -543,7 +567,9 @@ class NDCubeBase(NDCubeABC, astropy.nddata.NDData, NDCubeSlicingMixin):
 
         axes_coords = self._generate_world_coords(pixel_corners, wcs)
 
+        extra_coords_mapping = None
         if isinstance(wcs, ExtraCoords):
+            extra_coords_mapping = wcs.mapping
             wcs = wcs.wcs
 
         world_axis_physical_types = wcs.world_axis_physical_types
@@ -551,7 +577,7 @@ class NDCubeBase(NDCubeABC, astropy.nddata.NDData, NDCubeSlicingMixin):
         # If user has supplied axes, extract only the
         # world coords that correspond to those axes.
         if axes:
-            world_indices = utils.wcs.calculate_world_indices_from_axes(wcs, axes)
+            world_indices = self._calculate_world_indices_from_axes(wcs, axes, extra_coords_mapping)
             axes_coords = [axes_coords[i] for i in world_indices]
             world_axis_physical_types = tuple(np.array(world_axis_physical_types)[world_indices])
 
